@@ -2,6 +2,7 @@ import Abmarl.Lemmas.Broadcast
 import Abmarl.Lemmas.BroadcastObs
 import Abmarl.Lemmas.BroadcastStep
 import Abmarl.Lemmas.BroadcastDeliv
+import Abmarl.Lemmas.BroadcastRecv
 /-!
 # `BroadcastSim` (`abmarl/examples/sim/comms_blocking.py`) inside the model: C02, C03, C08
 
@@ -44,17 +45,18 @@ Proved:
   of the scan are EXACTLY the reached agents, once each (`BC.determine_complete`, `BC.determine_nodup`,
   `Lemmas/BroadcastDeliv.lean`).
 
-NOT proved (statements kept here; the judge evaluates them at run time on every trace of the correspondence stream):
+* **delivery, one step** `broadcast_delivery_step`: in every state of the invariant, on a configuration satisfying
+  `cfgHypb`, a `step` that returns leaves `receiving_state` equal to `BC.recvAfter`: every receiving list grows by EXACTLY
+  the senders that chose to broadcast and reach the receiver, once each, in the order of the action dict, carrying the
+  sender's message; no message changes (`BC.step_recv`, `Lemmas/BroadcastRecv.lean`: the per-sender `dictSet`s are the
+  per-receiver `filterMap`).
 
-* `broadcast_delivery_step` — `∀ cfg w0 s acts s', Good cfg w0 s → cfgHypb cfg s.w = true → BC.step cfg s acts = .ok s' →
-     ∃ rv, s.recv = some rv ∧ s'.recv = some (BC.recvAfter cfg s.w s.msgs acts rv)`:
-  a receiving list grows by EXACTLY the senders that reach the receiver, once each, in the order of the action dict.
-  Proved: per scan, membership iff reached and `Nodup` (`broadcast_delivery`).  Missing: the bookkeeping that turns the
-  per-sender `dictSet`s into the per-receiver `filterMap` of `recvAfter`.
+NOT proved (statement kept here; the judge evaluates it at run time on every trace of the correspondence stream):
+
 * `broadcast_hist` — `∀ cfg w0 ops, bcPre cfg w0 ops = true →
-     specBC cfg w0 (zipOps ops (runOps cfg (init w0) ops).1) = true`.  Missing: full delivery (every other clause of
-  `judge1` is one of the theorems of this file).  The driver evaluates `specBC` on the model's own exact run of every
-  request (reply field `specOnModel`): a `0` there is reported as a broken obligation.
+     specBC cfg w0 (zipOps ops (runOps cfg (init w0) ops).1) = true`.  Missing: only the assembly (every clause of `judge1`,
+  full delivery included, is one of the theorems of this file).  The driver evaluates `specBC` on the model's own
+  exact run of every request (reply field `specOnModel`): a `0` there is reported as a broken obligation.
 -/
 namespace Abmarl
 open World
@@ -151,6 +153,14 @@ theorem broadcast_delivery (cfg : BC.Cfg) (w : World) (a : Aid) (l : List Int) (
     (hl : cfg.mapping.lookup (w.encOf a) = some l) (hp : w.inGrid (w.stOf a).pos = true) :
     ∃ tos, BC.determine cfg w a = .ok tos ∧ tos.Nodup ∧ ∀ b, b ∈ tos ↔ BC.reaches cfg w a b = true :=
   ⟨_, BC.determine_eq_scan hl hp, BC.determine_nodup hI hp, BC.mem_scan_iff hI hl hp⟩
+
+/-- **delivery, one step**: a `step` that returns appends to every receiving list exactly what the specification says
+(`BC.recvAfter`: one entry `(sender, sender's message)` per item of the action dict, in its order, whose sender is a
+broadcaster that chose to broadcast and reaches the receiver), and changes no message -/
+theorem broadcast_delivery_step (cfg : BC.Cfg) (w0 : World) (s s' : BC.St) (hG : BC.Good cfg w0 s)
+    (hH : BC.cfgHypb cfg s.w = true) (acts : List (Aid × BC.Act)) (h : BC.step cfg s acts = .ok s') :
+    ∃ rv, s.recv = some rv ∧ s'.recv = some (BC.recvAfter cfg s.w s.msgs acts rv) ∧ s'.msgs = s.msgs :=
+  BC.step_recv hG hH h
 
 /-! ## C08 -/
 
